@@ -635,7 +635,7 @@ class RefFlat(object):
                 li, si = where
                 sl = self.stmts(li)
                 j = si + 1
-                while j < len(sl) and then_joined(sl[j - 1]):
+                while j < len(sl) and then_joined(sl[j - 1]) and sl[j][0] != 'EL':
                     j += 1
                 return (li, j)
             return self.line_start(s[1])
@@ -915,10 +915,12 @@ class FlowCheck(core.Check):
     MODEL_IMPORTS = ['gen.Gen_flow', 'model.Flow', 'model.FlowRef']
     histogram = None
 
+    WITH_TRAP_REF = False     # C21: also evaluate the mode-structured reference semantics (FlowTrap.ref_run)
+
     def impl(self, case):
         out = self._run(case)
-        if case['k'] == 'struct':
-            # the model term evaluates both the machine on the laid-out program and the reference semantics
+        if case['k'] == 'struct' or self.WITH_TRAP_REF:
+            # the model term evaluates both the machine and a reference semantics
             return out + out
         return out
 
@@ -935,7 +937,12 @@ class FlowCheck(core.Check):
             return ('(let p := %s in enc_run (run_program (compile_prog p) harness_fuel) ++ '
                     'enc_run (exec_prog p harness_fuel))' % sp)
         fn = 'run_program' if case.get('direct') is None else 'run_direct'
-        return 'enc_run (%s %s harness_fuel)' % (fn, code_coq(case['prog'], case.get('direct')))
+        code = code_coq(case['prog'], case.get('direct'))
+        if self.WITH_TRAP_REF:
+            start = '0%nat' if case.get('direct') is None else '(direct_start c)'
+            return ('(let c := %s in enc_run (%s c harness_fuel) ++ '
+                    'enc_run (ref_run c harness_fuel MMain (init_at %s)))' % (code, fn, start))
+        return 'enc_run (%s %s harness_fuel)' % (fn, code)
 
     def expected(self, case):
         if case['k'] == 'struct':
@@ -965,6 +972,32 @@ class FlowCheck(core.Check):
     def undescribe(self, d):
         return {k: v for k, v in d.items() if k not in ('text', 'command')}
 
+    def shrink_candidates(self, case):
+        """smaller programs: drop a line, drop a statement (structured cases: drop a statement of any block
+        or replace a loop / IF by its body), keeping the text enterable"""
+        if case['k'] == 'struct':
+            for sp in shrink_struct(case['sp']):
+                prog = compile_prog(sp)
+                if valid_layout(prog):
+                    yield {'k': 'struct', 'sp': sp, 'prog': prog, 'direct': None}
+            return
+        prog, direct = case['prog'], case.get('direct')
+        lines = split_lines(prog)
+        for i in range(len(lines)):
+            rest = lines[:i] + lines[i + 1:]
+            cand = [s for n, sl in rest for s in [['L', n]] + sl]
+            if valid_layout(cand):
+                yield {'k': 'flat', 'prog': cand, 'direct': direct}
+        for i, s in enumerate(prog):
+            if s[0] != 'L':
+                cand = prog[:i] + prog[i + 1:]
+                if valid_layout(cand):
+                    yield {'k': 'flat', 'prog': cand, 'direct': direct}
+        if direct:
+            for i in range(len(direct)):
+                if len(direct) > 1:
+                    yield {'k': 'flat', 'prog': prog, 'direct': direct[:i] + direct[i + 1:]}
+
     def count(self, cases):
         hist = {}
         for c in cases:
@@ -978,6 +1011,53 @@ class FlowCheck(core.Check):
                                 else 'endless' if want[0] == 3 else 'unmodelled')
             hist[key] = hist.get(key, 0) + 1
         self.histogram = hist
+
+
+def shrink_block(b):
+    for i, s in enumerate(b):
+        yield b[:i] + b[i + 1:]
+        if s[0] == 'for':
+            yield b[:i] + s[6] + b[i + 1:]
+            for nb in shrink_block(s[6]):
+                yield b[:i] + [s[:6] + [nb]] + b[i + 1:]
+        elif s[0] == 'while':
+            yield b[:i] + s[2] + b[i + 1:]
+            for nb in shrink_block(s[2]):
+                yield b[:i] + [[s[0], s[1], nb]] + b[i + 1:]
+        elif s[0] == 'if':
+            for nb in shrink_block(s[2]):
+                yield b[:i] + [[s[0], s[1], nb, s[3], s[4]]] + b[i + 1:]
+            for nb in shrink_block(s[3]):
+                yield b[:i] + [[s[0], s[1], s[2], nb, s[4]]] + b[i + 1:]
+
+
+def shrink_struct(sp):
+    used = set()
+
+    def targets(b):
+        for s in b:
+            if s[0] == 'gosub':
+                used.add(s[1])
+            elif s[0] == 'ongosub':
+                used.update(s[2])
+            elif s[0] == 'for':
+                targets(s[6])
+            elif s[0] == 'while':
+                targets(s[2])
+            elif s[0] == 'if':
+                targets(s[2])
+                targets(s[3])
+    targets(sp['main'])
+    for n, b in sp['subs']:
+        targets(b)
+    for i, (n, b) in enumerate(sp['subs']):
+        if n not in used:
+            yield {'main': sp['main'], 'subs': sp['subs'][:i] + sp['subs'][i + 1:]}
+    for nb in shrink_block(sp['main']):
+        yield {'main': nb, 'subs': sp['subs']}
+    for i, (n, b) in enumerate(sp['subs']):
+        for nb in shrink_block(b):
+            yield {'main': sp['main'], 'subs': sp['subs'][:i] + [[n, nb]] + sp['subs'][i + 1:]}
 
 
 def show(r):
